@@ -326,6 +326,7 @@ class Sim:
             n = I(a[1]); d = 0
             while n is not None and d <= 20000: n = self.child_ptr(n); d += 1
             return ('int', -1 if n is not None else d)
+        if o in ('print', 'printbuf', 'printpre', 'minify', 'findptr', 'hooks'): return ('ext',)      # no effect on trees or ledger; result not predicted
         raise Unpredictable('operation %s is outside the list model' % o)
 
     def sweep(self):
@@ -335,6 +336,7 @@ class Sim:
 
     def render(self, r):
         k = r[0]
+        if k == 'ext': return '?'
         if k == 'unit': return '.'
         if k == 'flag': return '1' if r[1] else '0'
         if k == 'ptr': return self.canon(r[1])
@@ -406,6 +408,7 @@ def health_problem(out):
     for t in out.split(' '):
         if t.startswith('DOUBLEFREE'): return 'a block was released twice (%s)' % t
         if t.startswith('FOREIGNFREE'): return 'caller memory was released by the library (%s)' % t
+        if t.startswith('WRONGALLOCATOR'): return 'a block was handed to the release function of the other allocator (%s)' % t
         if t == 'FOREIGNDAMAGED': return 'caller memory was modified by the library'
         if t.endswith('}!'): return 'sibling chain inconsistent: ' + t[:60]
         if t.endswith(':CYCLE'): return 'malformed / cyclic structure: ' + t
@@ -423,8 +426,8 @@ def dt(x): return 'nan' if x != x else '%016x' % dbl_bits(x)
 
 class Gen:
     """builds one history; every choice is made on the oracle's current state so that the documented rules hold"""
-    def __init__(self, rng, profile='edit', max_roots=8):
-        self.rng = rng; self.sim = Sim(); self.ops = []; self.tags = set(); self.profile = profile; self.max_roots = max_roots
+    def __init__(self, rng, profile='edit', max_roots=8, with_print=False):
+        self.rng = rng; self.sim = Sim(); self.ops = []; self.tags = set(); self.profile = profile; self.max_roots = max_roots; self.with_print = with_print
 
     # ---- views of the state
     def handles(self, pred):
@@ -639,6 +642,9 @@ class Gen:
         cs = self.handles(lambda n: (n.ty & 0xFF) in (T_ARRAY, T_OBJECT))
         if cs and x < 0.75: h = r.choice(cs); n = s.items[h]
         k = r.randrange(8)
+        if self.with_print and r.random() < 0.25:
+            if any(x.live and (x.ty & 0xFF) == T_RAW and x.vs is None for x in s.subtree(n)): return self.emit('size:%d' % h)
+            return self.emit(r.choice(['print:%d:0', 'print:%d:1', 'printbuf:%d:1:1', 'printbuf:%d:300:0']) % h, 'print')
         if k == 0: return self.emit('size:%d' % h)
         if k == 1: return self.emit('each:%d' % h)
         if k in (2, 3): return self.emit('get:%d:%d' % (h, self.index(n)))
@@ -678,8 +684,8 @@ class Gen:
             self.step()
         return self
 
-def history_case(rng, profile, nops, cfg='DX', max_roots=8, extra_tags=()):
-    g = Gen(rng, profile, max_roots).run(nops)
+def history_case(rng, profile, nops, cfg='DX', max_roots=8, extra_tags=(), with_print=False):
+    g = Gen(rng, profile, max_roots, with_print).run(nops)
     line = 'hist %s 0 %s' % (cfg, ';'.join(g.ops))
     return Case(line, {'tags': sorted(g.tags) + list(extra_tags), 'nops': len(g.ops)})
 
@@ -719,6 +725,54 @@ def directed_link_cases():
                     ops += ['deta:0:0', 'false']; f = nh + n + 2
                     ops += ['ins:0:0:%d' % f, 'size:0']
                     cases.append(Case('hist DX 0 ' + ';'.join(ops), {'tags': ['directed', 'directed:' + what, 'size%d' % n]}))
+    return cases
+
+def directed_key_cases():
+    """objects whose keys collide under ASCII case folding, in every order, queried with every spelling through every
+    by-key call (first exact match / first folded match)"""
+    import itertools
+    cases = []
+    spell = [b'Key', b'key', b'KEY']
+    for perm in itertools.permutations(spell):
+        for q in (b'key', b'Key', b'KEY', b'kEy', b'ke'):
+            for what in ('geto', 'getocs', 'has', 'deto', 'detocs', 'delo', 'delocs', 'repo', 'repocs'):
+                ops = ['obj']
+                for i, k in enumerate(perm):
+                    ops += ['num:' + dt(float(i + 1)), 'addo:0:x%s:%d' % (k.hex(), i + 1)]
+                ops += ['anull:0:x6f74686572']          # handle 4
+                if what.startswith('rep'): ops += ['str:x6e6577', '%s:0:x%s:5' % (what, q.hex())]
+                else: ops += ['%s:0:x%s' % (what, q.hex())]
+                ops += ['size:0', 'each:0', 'geto:0:x%s' % q.hex(), 'getocs:0:x%s' % q.hex()]
+                cases.append(Case('hist DX 0 ' + ';'.join(ops), {'tags': ['directed', 'directed-keys:' + what]}))
+    return cases
+
+def print_failure_cases():
+    """printing with the k-th allocation request of the print call failing (custom hooks: manual buffer growth);
+    the ledger must be what it was and nothing may be released twice"""
+    cases = []
+    long_s = (b'long string value ' * 20).hex()
+    build = 'obj;astr:0:x6b:x%s;arr;add:0:2;anum:0:x6e:4000000000000000' % long_s      # handles 0 obj, 1 str, 2 arr, 3 num
+    for call in ('print:0:0', 'print:0:1', 'printbuf:0:8:0', 'printbuf:0:8:1', 'printbuf:0:300:1', 'print:1:0', 'printbuf:1:1:0'):
+        for k in range(1, 6):
+            cases.append(Case('hist DX @5.%d %s;%s;size:0' % (k, build, call), {'tags': ['print-under-failure', 'fail-request-%d' % k]}))
+    return cases
+
+def wide_cases(limit):
+    """containers with about CJSON_CIRCULAR_LIMIT children (the limit bounds depth, not width), also a few levels down"""
+    cases = []
+    for w, wrap in ((limit - 1, 0), (limit + 1, 0), (limit - 1, 3), (limit // 2 + 1, limit // 2)):
+        lst = ','.join(['7'] * w)
+        e = [('ints:%d:%s' % (w, lst), 'h0 L%d' % (w + 1))]; top = 0; n = w + 1
+        if wrap:
+            e.append(('chain:%d' % wrap, 'h1 L%d' % (n + wrap))); n += wrap
+            # the chain's innermost array is reached through its handles: get the innermost by walking down
+            cur = 1; h = 2
+            for _ in range(wrap - 1): e.append(('get:%d:0' % cur, 'h%d L%d' % (h, n))); cur = h; h += 1
+            e.append(('add:%d:0' % cur, '1 L%d' % n)); top = 1
+        else: h = 1
+        e += [('dup:%d:1' % top, 'h%d L%d' % (h, 2 * n)), ('depth:%d' % h, '%d L%d' % ((wrap + 2) if w else wrap + 1, 2 * n)), ('del:%d' % h, '. L%d' % n), ('del:%d' % top, '. L0')]
+        ops = [o for o, _ in e]; segs = [x for _, x in e]
+        cases.append(Case('hist TXS 0 ' + ';'.join(ops), {'tags': ['deep', 'wide', 'wide:%d/depth:%d' % (w, wrap)], 'expect_segments': segs}))
     return cases
 
 def circular_limit(repo):
